@@ -448,6 +448,7 @@ func runC12(c *mon.Ctx) {
 		}
 		c12Run(c, cs, base)
 	}
+	c12Swap(c, base)
 	if ents, err := os.ReadDir(base); err == nil && len(ents) > 0 && c.ReplayCase == "" {
 		var names []string
 		for _, e := range ents {
